@@ -32,6 +32,7 @@ type c19Case struct {
 	Spacing      []int  `json:"spacing_ms"`               // key-frame spacing pattern in ms (video); 0 = every sample
 	Audio        string `json:"audio,omitempty"`          // video-led with an additional audio track: aac16 aac44 aac48 opus
 	AudioStartMS int    `json:"audio_start_ms,omitempty"` // the audio track starts this late
+	AudioFirst   bool   `json:"audio_first,omitempty"`    // the audio track is listed before the video track in Muxer.Tracks
 }
 
 func c19Sources(tier string) []c19Src {
@@ -63,7 +64,7 @@ func c19Spacings(src c19Src) [][]int {
 	if src.Kind != "h264" {
 		return [][]int{{0}}
 	}
-	return [][]int{{0}, {500}, {1000}, {2500}, {700, 1300, 400}}
+	return [][]int{{0}, {500}, {1000}, {2500}, {700, 1300, 400}, {1000, 2500}, {600, 3000}}
 }
 
 var c19AVAudio = []string{"aac16", "aac44", "aac48", "opus"}
@@ -129,6 +130,9 @@ func c19RunCase(cs c19Case) (viols [][2]string, nplaylists int, outcome string) 
 			astep = 960
 		}
 		mi.tracks = append(mi.tracks, atk)
+		if cs.AudioFirst {
+			mi.tracks = []*Track{atk, tk}
+		}
 	}
 	anext := int64(0)
 	m := &Muxer{Variant: MuxerVariantLowLatency, Tracks: mi.tracks, SegmentCount: 7,
@@ -159,7 +163,9 @@ func c19RunCase(cs c19Case) (viols [][2]string, nplaylists int, outcome string) 
 	var prevPT int64 = -1
 	prevHadNonFinal := false
 	seenPart := map[string]int64{} // decoded duration in ticks
-	ls := m.streams[0]
+	ls := m.leadingStream
+	rendPT := map[*muxerStream]int64{}
+	rendHadNonFinal := map[*muxerStream]bool{}
 	var Dticks int64 = -1
 	for i := 0; i < total; i++ {
 		dts := int64(i) * d
@@ -278,6 +284,42 @@ func c19RunCase(cs c19Case) (viols [][2]string, nplaylists int, outcome string) 
 		}
 		prevHadNonFinal = len(nonFinal) > 0
 		prevPT = pt
+		// the playlists of the other streams (audio renditions) list parts cut at the same instants: the clauses that
+		// relate a listed part to the PART-TARGET of its own playlist apply to them as well
+		for _, os := range m.streams {
+			if os == ls || !os.hasContent() {
+				continue
+			}
+			rr := muxGet(m, mediaPlaylistPath(os.id))
+			if rr.Status != 200 {
+				add("playlist-status", "stream %s: status %d", os.id, rr.Status)
+				return
+			}
+			rpl, _, rerrs := m3u.Parse(rr.Body.Bytes(), m3u.Options{StrictUnknown: true})
+			if rpl == nil || len(rerrs) > 0 || rpl.PartTargetNS == nil {
+				add("playlist-grammar", "stream %s: %v", os.id, rerrs)
+				return
+			}
+			nplaylists++
+			rpt := *rpl.PartTargetNS
+			var rnf []m3u.Part
+			for _, sg := range rpl.Segments {
+				if n := len(sg.Parts); n > 1 {
+					rnf = append(rnf, sg.Parts[:n-1]...)
+				}
+			}
+			rnf = append(rnf, rpl.Parts...)
+			for _, p := range rnf {
+				if p.DurationNS > rpt+10_000 || float64(p.DurationNS)+10_000 < 0.85*float64(rpt) {
+					add("part-vs-part-target", "stream %s: non-final part %s lasts %d ns, PART-TARGET of the same playlist is %d ns (after %d samples of the leading track; PartMinDuration %d ms)", os.id, canon(p.URI), p.DurationNS, rpt, i+1, cs.PartMS)
+				}
+			}
+			if len(rnf) > 0 && rendHadNonFinal[os] && rendPT[os] != rpt {
+				add("part-target-changed", "stream %s: PART-TARGET went from %d ns to %d ns between two playlists that both list a non-final part (after %d samples)", os.id, rendPT[os], rpt, i+1)
+			}
+			rendHadNonFinal[os] = len(rnf) > 0
+			rendPT[os] = rpt
+		}
 	}
 	outcome = fmt.Sprintf("D=%d pt=%d n=%d", Dticks, prevPT, nplaylists)
 	return
@@ -326,21 +368,26 @@ func c19Run(c *vh.Ctx) {
 	if audio != "" && step < 50 {
 		step = 25
 	}
-	starts := []int{0}
+	type avMode struct {
+		start int
+		first bool
+	}
+	starts := []avMode{{0, false}}
 	if audio != "" {
-		starts = []int{0, 500, 1250}
+		starts = []avMode{{0, false}, {500, false}, {1250, false}, {0, true}}
 	}
 	for pm := 50; pm <= 2000; pm += step {
 		for _, sp := range c19Spacings(src) {
-			for _, ast := range starts {
-				if audio != "" && len(sp) > 1 {
+			for _, am := range starts {
+				ast := am.start
+				if audio != "" && len(sp) > 1 && ast != 0 {
 					continue
 				}
-				cs := c19Case{Src: src, PartMS: pm, SegMS: seg, Spacing: sp, Audio: audio, AudioStartMS: ast}
+				cs := c19Case{Src: src, PartMS: pm, SegMS: seg, Spacing: sp, Audio: audio, AudioStartMS: ast, AudioFirst: am.first}
 				v, npl, out := c19RunCase(cs)
 				c.Exec()
 				c.AddSteps(int64(npl))
-				c.Outcome(strings.Join([]string{src.Label, fmt.Sprint(pm, seg, sp, audio, ast), out}, "|"))
+				c.Outcome(strings.Join([]string{src.Label, fmt.Sprint(pm, seg, sp, audio, ast, am.first), out}, "|"))
 				if c.WantSample() && npl > 5 && n%7 == 0 {
 					c.Sample(map[string]any{"case": cs, "playlists_checked": npl, "result": out})
 				}
